@@ -95,9 +95,14 @@ C09Trees(withE, odd) ==
      tops \in SUBSET C09Top, hasD \in BOOLEAN, dsub \in SUBSET C09Sub, e \in (IF withE THEN (IF "e/a" \in Paths THEN 0..2 ELSE 0..1) ELSE {0}) }
 C09Modes == IF "c" \in Paths THEN { <<TRUE, 0>>, <<TRUE, 1>>, <<TRUE, 2>>, <<FALSE, 0>> }      \* <<--delete, sender io-error word>>
             ELSE { <<TRUE, 0>>, <<TRUE, 2>>, <<FALSE, 0>> }
+(* the user's exclude rule for "a" (a name at two depths): the sender does not list it, and a deleting receiver *)
+(* must leave it - and go on deleting what sorts after it                                                     *)
+C09Prot == {{}, {"a", "d/a"} \cap Paths}
+C09ProtFor(src) == {x \in C09Prot : \A q \in x : ~Exists(src, q)}
 C09Scn ==
-  { Scn(dst, ListOf(src), O(TRUE, TRUE, FALSE, TRUE, TRUE, FALSE, FALSE, FALSE, m[1]), m[2], {}) :
-      src \in C09Trees(FALSE, FALSE), dst \in C09Trees(TRUE, TRUE), m \in C09Modes }
+  UNION { { Scn(dst, ListOf(src), O(TRUE, TRUE, FALSE, TRUE, TRUE, FALSE, FALSE, FALSE, m[1]), m[2], pr) :
+              dst \in C09Trees(TRUE, TRUE), m \in C09Modes, pr \in C09ProtFor(src) } :
+          src \in C09Trees(FALSE, FALSE) }
 
 (* =================================================================== C11 *)
 (* Universe = <<".", "d", "d/f", "dev", "f", "k", "l", "ro", "ro/f">>: attribute classes *)
@@ -119,7 +124,7 @@ C11Scn ==
 (* =================================================================== C13 *)
 (* Universe = <<".", "a", "b", "c", "d", "d/a", "d/b", "d/e", "d/e/a">>: the same *)
 (* names at several depths, files and directories, every sort position       *)
-C13Src == With(With(With(With(With(With(With(With(EmptyFs, "a", Reg(1, 11, 1000, 0, 420)), "b", Reg(2, 12, 1000, 0, 420)), "c", Reg(3, 13, 1000, 0, 420)),
+C13Src == With(With(With(With(With(With(With(With(With(EmptyFs, "ba", Reg(7, 17, 1000, 0, 420)), "a", Reg(1, 11, 1000, 0, 420)), "b", Reg(2, 12, 1000, 0, 420)), "c", Reg(3, 13, 1000, 0, 420)),
           "d", Dir(493)), "d/a", Reg(4, 14, 1000, 0, 420)), "d/b", Reg(5, 15, 1000, 0, 420)), "d/e", Dir(493)), "d/e/a", Reg(6, 16, 1000, 0, 420))
 C13RulePool == [inc : BOOLEAN, pat : {"a", "b", "d", "e"}]
 CONSTANT MaxRules
